@@ -1334,7 +1334,7 @@ func c20GenDirs(r *Rand) []c20Dir {
 			d.Scope = "/"
 		}
 		// exceptions mostly on the last directive (there the shared list equals the directive's own)
-		if (i == n-1 && r.Chance(55)) || r.Chance(12) {
+		if (i == n-1 && r.Chance(55)) || r.Chance(25) {
 			d.Except = c20Subset(r, c20Excepts[:8], 2)
 		}
 		ds = append(ds, d)
